@@ -203,3 +203,8 @@ mod tests {
         );
     }
 }
+
+// Verification hook (inert unless built by `cargo kani`): harnesses for the pure functions of the command-line layer.
+#[cfg(kani)]
+#[path = "/verif/kani/incli/mod.rs"]
+mod verif_kani;
